@@ -93,7 +93,7 @@ pub(crate) mod verif_c14_fixed {
     let announced = match &sm { Some(s) => s.header.content_length as usize, None => { assert!(false, "create_submessage refused"); 0 } };
     if let Some(s) = &sm {
       assert!(s.header.kind == SubmessageKind::HEARTBEAT && s.header.flags == flags.bits(), "c14.len: header kind/flags");
-      assert!(s.body == SubmessageBody::Writer(WriterSubmessage::Heartbeat(hb.clone(), flags)));
+      match &s.body { SubmessageBody::Writer(WriterSubmessage::Heartbeat(b, f)) => assert!(*b == hb && *f == flags), _ => assert!(false) }
     }
     assert!(announced == 28);
     roundtrip(&hb, e, announced);
@@ -120,14 +120,16 @@ pub(crate) mod verif_c14_fixed {
     let sm = d.clone().create_submessage(flags);
     assert!(sm.header.kind == SubmessageKind::INFO_DST && sm.header.flags == flags.bits());
     assert!(sm.header.content_length as usize == d.len_serialized());
-    assert!(sm.body == SubmessageBody::Interpreter(InterpreterSubmessage::InfoDestination(d.clone(), flags)));
+    match &sm.body { SubmessageBody::Interpreter(InterpreterSubmessage::InfoDestination(b, f)) => assert!(*b == d && *f == flags), _ => assert!(false) }
     let bytes = roundtrip(&d, e, d.len_serialized());
     // the builder used by the writer announces the same length and the flag of the byte order
     let m = MessageBuilder::new().dst_submessage(e, d.guid_prefix).add_header_and_build(any_prefix());
     assert!(m.submessages.len() == 1);
     let h = m.submessages[0].header;
     assert!(h.kind == SubmessageKind::INFO_DST && h.content_length as usize == bytes.len() && endianness_flag(h.flags) == e);
-    assert!(m.submessages[0].body == SubmessageBody::Interpreter(InterpreterSubmessage::InfoDestination(d, BitFlags::<INFODESTINATION_Flags>::from_endianness(e))));
+    match &m.submessages[0].body {
+      SubmessageBody::Interpreter(InterpreterSubmessage::InfoDestination(b, f)) => assert!(*b == d && *f == BitFlags::<INFODESTINATION_Flags>::from_endianness(e)),
+      _ => assert!(false) }
   }
   #[kani::proof]
   #[kani::unwind(18)]
@@ -166,8 +168,11 @@ pub(crate) mod verif_c14_fixed {
     let f = BitFlags::<INFOTIMESTAMP_Flags>::from_bits_truncate(sm.header.flags);
     // flag and presence agree (a reader decides from the flag whether a timestamp follows)
     assert!(f.contains(INFOTIMESTAMP_Flags::Invalidate) == ts.is_none(), "c14.len: Invalidate flag");
-    assert!(sm.body == SubmessageBody::Interpreter(InterpreterSubmessage::InfoTimestamp(InfoTimestamp { timestamp: ts }, f)));
-    let bytes = match sm.body.write_to_vec_with_ctx(e) { Ok(b) => b, Err(_) => { assert!(false); return } };
+    match &sm.body { SubmessageBody::Interpreter(InterpreterSubmessage::InfoTimestamp(b, f2)) => assert!(b.timestamp == ts && *f2 == f), _ => assert!(false) }
+    // serialise exactly what Submessage::write_to serialises after the header: the body, in the
+    // byte order of the header flag (value rebuilt locally so that the enum variant is a constant)
+    let body = InterpreterSubmessage::InfoTimestamp(InfoTimestamp { timestamp: ts }, f);
+    let bytes = match body.write_to_vec_with_ctx(endianness_flag(sm.header.flags)) { Ok(b) => b, Err(_) => { assert!(false); return } };
     assert!(bytes.len() == sm.header.content_length as usize, "c14.len");
     match ts {
       None => assert!(bytes.is_empty()),
